@@ -307,6 +307,12 @@ func (c *cursorAcker) Ack(offset int64) {
 func (c *cursorAcker) ack(offset int64) {
 	q := c.quorumTracker
 
+	if q.closed {
+		// The requests that were waiting are being failed one by one, outside the lock: a late
+		// ack must not complete one of them while the ones before it have been failed.
+		return
+	}
+
 	e, found := q.tracker[offset]
 	if !found && offset > q.headOffset.Load() {
 		// The ack arrived before the head offset was advanced to this entry.
